@@ -411,6 +411,12 @@ theorem crl_section :
     ["GetCRL", "GetRevokedCertificates", "CreateCRL", "StoreCRL"].all (fun n => crlCalls.any (·.1 == n)) = true := by
   decide +kernel
 
+/-- **one CRL section per process**: the mutex of that section is a package-level variable, so the old and
+    the new `Authority` of a reload (which share one database; `ca.Reload` builds the new one before it
+    stops the old one) exclude each other. Before fix 7329bb4 it was a field of the `Authority`: a
+    generation of the old authority in flight stored an older list over the newer ones of the new authority. -/
+theorem crl_section_shared : crlMutexShared = true := by decide +kernel
+
 /-- **no split sections**: no method that takes `adminMutex` calls another lock-taking method before
     taking it — a validation done under the callee's (read) lock and the mutation done under the
     caller's own lock would be two sections, and two simultaneous admin requests could both pass the
